@@ -15,7 +15,7 @@ for S in $SEEDS; do
   (cd /verif && VERIF_REPO="$WT" VERIF_EVIDENCE_DIR=/root/scratch/mx_ev_$$ VERIF_REPLAY_DIR=/root/scratch/mx_replays ./check "$P" --tier "$TIER" > "/root/scratch/try_$S.log" 2>&1); rc=$?
   git -C "$WT" checkout -- .
   w=$(( $(date +%s) - s ))
-  inst=$(grep -m1 'instance=' /root/scratch/try_$S.log | sed 's/^ *//')
+  inst=$(grep -m1 '^  instance=' /root/scratch/try_$S.log | sed 's/^ *//')
   echo "SEED $S tier=$TIER exit=$rc wall=${w}s $inst"
   python3 - "$OUT" "$S" "$TIER" "$rc" "$w" "$inst" "$P" <<'PY'
 import json, sys, os
